@@ -38,7 +38,7 @@ func (fa *FuncAnalysis) edgeFacts(pred, b *ssa.BasicBlock) []Rel {
 }
 
 func init() {
-	register(&Rule{ID: "C03.pair.delegation", Props: []string{"C03", "C15"}, Floor: 12,
+	register(&Rule{ID: "C03.pair.delegation", Props: []string{"C03", "C15", "C04"}, Floor: 12,
 		Doc: "every change of a delegation's shares is paired with the same change of the validator's delegator-share total",
 		Run: func(e *Engine, r *RuleRun) {
 			// adding stake: upsert result #1 -> updateValidatorShares(add)
